@@ -59,7 +59,20 @@ def f_lists(n, maxlen=2):
     return out
 
 
-def formulas(logic, leaves, size2=False):
+def literal_leaves(leaves):
+    return tuple(leaves) + tuple(('not', l) for l in leaves)
+
+
+def formulas(logic, leaves, size2=False, literals=False):
+    if literals:
+        # one operator over the literal leaves p, not p, ...: operands that can hold in unfair states
+        lv = literal_leaves(leaves)
+        if logic == 'CTL':
+            return list(spaces.ctl_by_size(1, lv))
+        gs = list(spaces.path_by_size(1, lv))
+        if logic == 'LTL':
+            return [('A', g) for g in gs]
+        return [(q, g) for g in gs for q in 'AE']
     if logic == 'CTL':
         fs = list(spaces.ctl_by_size(1, leaves))
         if size2:
@@ -89,9 +102,14 @@ def scope(tier, seed):
             + ('; all 50625 total graphs n=4 x F lists of <=1 subset (+[S,S])' if tier == 'quick'
                else '; all 50625 total graphs n=4 x all 273 F lists of <=2 subsets'),
             'clause2-4': 'all 148 labelled K(<=2,{p,q}) x all 21 F lists x one-operator formulas of '
-            'CTL (42), LTL (28), CTL* (56 + 11 nested/boolean shapes); representatives of K(3,{p}) x '
-            + ('F lists of <=1 subset and [P,S]' if tier == 'quick' else 'all 73 F lists')
-            + ' x formulas over {p}' + ('' if tier == 'quick' else '; size-2 formulas on K(<=2)')}
+            'CTL (42), LTL (28), CTL* (56 + 11 nested/boolean shapes)' + (' [quick: LTL/CTL* on the 82 '
+            'iso-representatives with F lists of <=1 set + quarter %d of the two-set lists]' % (seed % 4)
+            if tier == 'quick' else '') + '; representatives of K(3,{p}) x '
+            + ('F lists of <=1 subset and [P,S] (LTL/CTL* on the quarter of the representatives with '
+               'index %% 4 == %d)' % (seed % 4) if tier == 'quick' else 'all 73 F lists')
+            + ' x formulas over {p}' + ('' if tier == 'quick' else '; size-2 formulas on K(<=2)')
+            + '; additionally one-operator formulas over the literal leaves p, not p, q, not q ('
+            + ('CTL only' if tier == 'quick' else 'all three logics') + ')'}
 
 
 def _k3():
@@ -230,11 +248,24 @@ def run_shard(shard, tier, seed, acc):
             ks = (spaces.kripke_reps(1) + spaces.kripke_reps(2))[shard[1]:shard[2]]
         else:
             ks = (list(spaces.kripkes(1)) + list(spaces.kripkes(2)))[shard[1]:shard[2]]
+        reps2 = set(x.key() for x in spaces.kripke_reps(1) + spaces.kripke_reps(2))
         for k in ks:
             Kl = lib.to_kripke(k)
-            Fl = f_lists(k.n)
+            Fl_all = f_lists(k.n)
             for logic in ('CTL', 'LTL', 'CTLS'):
+                Fl = Fl_all
+                if tier == 'quick' and logic != 'CTL':
+                    # the tableau-based checkers are ~10x slower: quick covers the iso-class
+                    # representatives, all F lists of <=1 set and a seed-indexed quarter of the
+                    # two-set lists; thorough covers everything
+                    if k.key() not in reps2:
+                        continue
+                    Fl = [F for i, F in enumerate(Fl_all) if len(F) <= 1 or i % 4 == seed % 4]
                 forms = formulas(logic, spaces.LEAVES2, size2)
+                if not size2 and (logic == 'CTL' or tier != 'quick'):
+                    seenf = set(forms)
+                    forms = forms + [f for f in formulas(logic, spaces.LEAVES2, literals=True)
+                                     if f not in seenf]
                 if size2:
                     forms = [f for f in forms if spaces.size_of(f) >= 3 or logic == 'CTL']
                 for j, f in enumerate(forms):
@@ -249,14 +280,21 @@ def run_shard(shard, tier, seed, acc):
             acc.sample({'k': k.to_json(), 'F': 'all lists of <=2 subsets', 'logics': ['CTL', 'LTL', 'CTLS']})
         return
     if kind == 'mc3':
-        for k in _k3()[shard[1]:shard[2]]:
+        for ki, k in enumerate(_k3()[shard[1]:shard[2]]):
             Kl = lib.to_kripke(k)
+            slow_ok = (tier != 'quick') or ((shard[1] + ki) % 4 == seed % 4)
             if tier == 'quick':
                 Fl = f_lists(3, 1) + [[P[0], frozenset(range(3))] for P in f_lists(3, 1)[1:]]
             else:
                 Fl = f_lists(3)
             for logic in ('CTL', 'LTL', 'CTLS'):
-                for j, f in enumerate(formulas(logic, (spaces.P,))):
+                if logic != 'CTL' and not slow_ok:
+                    continue
+                forms3 = formulas(logic, (spaces.P,))
+                if logic == 'CTL' or tier != 'quick':
+                    forms3 = forms3 + [f for f in formulas(logic, (spaces.P,), literals=True)
+                                       if f not in set(forms3)]
+                for j, f in enumerate(forms3):
                     if deadline_passed():
                         acc.capped()
                         return
